@@ -163,10 +163,24 @@ for set_type in (set, frozenset):
       unflatten_fn=lambda values, _, set_type=set_type: set_type(values),
       path_elements_fn=lambda x: tuple(SetElement() for _ in x))
 
+
+
+def _unflatten_bytes(values, metadata) -> bytes:
+  del metadata  # Unused.
+  try:
+    return values[0].encode('latin-1')
+  except UnicodeEncodeError:
+    # Documents written by earlier versions may contain characters >= 256.
+    return values[0].encode('raw_unicode_escape')
+
+
+# Bytes are stored as a string with one character per byte (latin-1). Decoding
+# with 'raw_unicode_escape' would interpret byte sequences that look like
+# `\\uXXXX` escapes, so that e.g. b'\\u0041' came back as b'A'.
 register_node_traverser(
     bytes,
-    flatten_fn=lambda x: ((x.decode('raw_unicode_escape'),), None),
-    unflatten_fn=lambda values, _: values[0].encode('raw_unicode_escape'),
+    flatten_fn=lambda x: ((x.decode('latin-1'),), None),
+    unflatten_fn=_unflatten_bytes,
     path_elements_fn=lambda x: (IdentityElement(),),
 )
 
